@@ -3,6 +3,7 @@ package sym
 import (
 	"fmt"
 	"go/types"
+	"sort"
 	"strings"
 
 	"golang.org/x/tools/go/ssa"
@@ -29,13 +30,18 @@ func (x *Exec) ifaceContract(c *ssa.CallCommon) *gcl.Contract {
 	if ct := x.P.Contracts[name+"."+c.Method.Name()]; ct != nil {
 		return ct
 	}
-	// try embedded interfaces: look for any iface contract whose method name matches and whose interface is implemented
+	// embedded interfaces: any iface contract whose method name matches and whose interface the receiver type implements
+	var keys []string
 	for k, ct := range x.P.Contracts {
 		if ct.Kind == "iface" && strings.HasSuffix(k, "."+c.Method.Name()) {
-			in := strings.TrimSuffix(k, "."+c.Method.Name())
-			if it := x.lookupIface(in); it != nil && types.Implements(recv, it) {
-				return ct
-			}
+			keys = append(keys, k)
+		}
+	}
+	sort.Strings(keys)
+	for _, k := range keys {
+		in := strings.TrimSuffix(k, "."+c.Method.Name())
+		if it := x.lookupIface(in); it != nil && types.Implements(recv, it) {
+			return x.P.Contracts[k]
 		}
 	}
 	return nil
@@ -69,54 +75,219 @@ func (x *Exec) lookupIface(qual string) *types.Interface {
 	return nil
 }
 
-// doCall executes a call; args may be pre-evaluated (deferred calls). Returns the possible outcomes.
-func (x *Exec) doCall(fr *frame, st *State, instr *ssa.Call, c *ssa.CallCommon, pre []smt.T, depth int) []outcome {
-	args := pre
-	if args == nil {
-		for _, a := range c.Args {
-			args = append(args, x.val(fr, st, a))
+// fnValueContract finds the contract of a dynamically called function value: a function-typed parameter of the
+// function under verification ("fnparam <func>#<param>") or a function-typed struct field ("fnfield <pkg>.<Type>.<field>").
+func (x *Exec) fnValueContract(fr *frame, c *ssa.CallCommon) (*gcl.Contract, string) {
+	v := c.Value
+	if u, ok := v.(*ssa.UnOp); ok {
+		switch a := u.X.(type) {
+		case *ssa.Alloc: // parameter spilled to a cell: `new T (name)` stored from the Parameter
+			for _, p := range fr.fn.Params {
+				if p.Name() == a.Comment {
+					key := load.FuncKey(originOf(fr.fn)) + "#" + p.Name()
+					if ct := x.P.Contracts[key]; ct != nil {
+						return ct, key
+					}
+				}
+			}
+		case *ssa.FieldAddr:
+			pt := deref(a.X.Type())
+			if n, ok := pt.(*types.Named); ok && n.Obj().Pkg() != nil {
+				st := pt.Underlying().(*types.Struct)
+				key := n.Obj().Pkg().Path() + "." + n.Obj().Name() + "." + st.Field(a.Field).Name()
+				if ct := x.P.Contracts[key]; ct != nil {
+					return ct, key
+				}
+			}
 		}
 	}
+	if p, ok := v.(*ssa.Parameter); ok {
+		key := load.FuncKey(originOf(fr.fn)) + "#" + p.Name()
+		if ct := x.P.Contracts[key]; ct != nil {
+			return ct, key
+		}
+	}
+	return nil, ""
+}
+
+func originOf(fn *ssa.Function) *ssa.Function {
+	if o := fn.Origin(); o != nil {
+		return o
+	}
+	return fn
+}
+
+// calleeKey is the name call clauses match against.
+func (x *Exec) calleeKey(c *ssa.CallCommon) string {
+	if c.IsInvoke() {
+		return ifaceName(c.Value.Type()) + "." + c.Method.Name()
+	}
+	if sc := c.StaticCallee(); sc != nil {
+		return load.FuncKey(originOf(sc))
+	}
+	if b, ok := c.Value.(*ssa.Builtin); ok {
+		return "builtin." + b.Name()
+	}
+	return "dynamic." + c.Value.Name()
+}
+
+func matchCallee(key, pat string) bool {
+	return key == pat || strings.HasSuffix(key, "."+pat) || strings.HasSuffix(key, "/"+pat) || strings.HasSuffix(key, pat) && strings.Contains(pat, ".")
+}
+
+// allCalls lists the call instructions of the function and its anonymous functions in source order.
+func (x *Exec) allCalls() []ssa.CallInstruction {
+	if x.calls != nil {
+		return x.calls
+	}
+	var cs []ssa.CallInstruction
+	var walk func(fn *ssa.Function)
+	walk = func(fn *ssa.Function) {
+		for _, b := range fn.Blocks {
+			for _, in := range b.Instrs {
+				if ci, ok := in.(ssa.CallInstruction); ok {
+					cs = append(cs, ci)
+				}
+			}
+		}
+		for _, af := range fn.AnonFuncs {
+			walk(af)
+		}
+	}
+	walk(x.fn)
+	sort.SliceStable(cs, func(i, j int) bool { return cs[i].Pos() < cs[j].Pos() })
+	x.calls = cs
+	return cs
+}
+
+func (x *Exec) countCalls(pat string) int {
+	n := 0
+	for _, ci := range x.allCalls() {
+		if matchCallee(x.calleeKey(ci.Common()), pat) {
+			n++
+		}
+	}
+	return n
+}
+
+func (x *Exec) callOrdinal(instr ssa.CallInstruction, pat string) int {
+	n := 0
+	for _, ci := range x.allCalls() {
+		if matchCallee(x.calleeKey(ci.Common()), pat) {
+			if ci == instr {
+				return n
+			}
+			n++
+		}
+	}
+	return -1
+}
+
+// callAsserts emits the `call N of callee: assert E` obligations that bind to this call.
+func (x *Exec) callAsserts(fr *frame, st *State, instr ssa.CallInstruction, c *ssa.CallCommon, after bool, results []smt.T) {
+	if x.contract == nil || instr == nil || len(x.contract.CallAsserts) == 0 {
+		return
+	}
+	key := x.calleeKey(c)
+	for i, ca := range x.contract.CallAsserts {
+		if ca.After != after || !matchCallee(key, ca.Callee) {
+			continue
+		}
+		ord := x.callOrdinal(instr, ca.Callee)
+		if ca.N >= 0 && ord != ca.N {
+			continue
+		}
+		root := fr
+		for root.parent != nil {
+			root = root.parent
+		}
+		t, err := x.evalClauseExtra(ca.Cl.E, st, x.entry, fr, nil, results)
+		if err != nil {
+			x.fatal("call clause %q: %v", ca.Cl.Src, err)
+			continue
+		}
+		label := ca.Cl.Label
+		if label == "" {
+			label = fmt.Sprintf("callassert%d", i)
+		}
+		kind := "order"
+		x.emit(&Obligation{Kind: kind, Label: fmt.Sprintf("%s@%s#%d", label, shortName(ca.Callee), ord), Facts: st.facts, Goal: t, Source: ca.Cl.Src}, st)
+		st.assume(t)
+	}
+}
+
+// doCall executes a call; args may be pre-evaluated (deferred calls). Returns the possible outcomes.
+func (x *Exec) doCall(fr *frame, st *State, instr ssa.CallInstruction, c *ssa.CallCommon, pre []smt.T, depth int) []outcome {
+	args := pre
+	if args == nil {
+		if c.IsInvoke() {
+			args = append(args, x.val(fr, st, c.Value))
+		}
+		for _, a := range c.Args {
+			args = append(args, x.argVal(fr, st, a))
+		}
+	}
+	x.callAsserts(fr, st, instr, c, false, nil)
+	outs := x.doCall1(fr, st, instr, c, args, depth)
+	if x.contract != nil && len(x.contract.CallAsserts) > 0 {
+		for _, o := range outs {
+			if !o.panicked {
+				x.callAsserts(fr, o.st, instr, c, true, o.results)
+			}
+		}
+	}
+	return outs
+}
+
+// argVal evaluates an argument; the address of a scalar field/element/cell passed to a callee does not count as "escaped".
+func (x *Exec) argVal(fr *frame, st *State, a ssa.Value) smt.T {
+	save := x.addrTaken
+	v := x.val(fr, st, a)
+	x.addrTaken = save
+	return v
+}
+
+func (x *Exec) doCall1(fr *frame, st *State, instr ssa.CallInstruction, c *ssa.CallCommon, args []smt.T, depth int) []outcome {
 	resTypes := tupleTypes(c.Signature().Results())
 	// 1. builtins
 	if b, ok := c.Value.(*ssa.Builtin); ok {
-		return x.builtin(fr, st, b, c, args, resTypes)
+		return x.builtin(fr, st, b, c, args, resTypes, instr)
 	}
 	// 2. closures created in this (or an enclosing) frame: inline
 	if mc := x.findClosure(fr, c.Value); mc != nil {
 		return x.inline(fr, st, mc.Fn.(*ssa.Function), mc, args, depth)
 	}
 	if c.IsInvoke() {
-		recv := x.val(fr, st, c.Value)
 		if ct := x.ifaceContract(c); ct != nil {
 			sig := c.Method.Type().(*types.Signature)
-			return x.applyContract(st, ct, sig, nil, append([]smt.T{recv}, args...), true, c.Method.FullName())
+			return x.applyContract(fr, st, ct, sig, nil, args, true, c.Method.FullName(), c)
 		}
 		x.uncontracted(st, "invoke "+c.Method.FullName())
-		return x.havocCall(st, resTypes, true)
+		return x.havocCall(fr, st, c, resTypes, true)
 	}
 	if sc := c.StaticCallee(); sc != nil {
-		if outs, ok := x.model(fr, st, sc, c, args, resTypes); ok {
+		if outs, ok := x.model(fr, st, sc, c, args, resTypes, instr); ok {
 			return outs
 		}
 		if ct := x.contractFor(sc); ct != nil {
-			var ps []*ssa.Parameter
-			f := sc
-			if o := sc.Origin(); o != nil {
-				f = o
-			}
-			ps = f.Params
-			return x.applyContract(st, ct, sc.Signature, ps, args, false, sc.String())
+			return x.applyContract(fr, st, ct, sc.Signature, originOf(sc).Params, args, false, sc.String(), c)
 		}
 		// anonymous function referenced statically (e.g. immediately invoked func literal without captures)
 		if sc.Parent() != nil {
 			return x.inline(fr, st, sc, nil, args, depth)
 		}
+		if x.knownPure(sc) {
+			x.noteTrusted("assumed pure: " + sc.String())
+			return x.havocCall(fr, st, c, resTypes, false)
+		}
 		x.uncontracted(st, sc.String())
-		return x.havocCall(st, resTypes, !x.knownPure(sc))
+		return x.havocCall(fr, st, c, resTypes, true)
+	}
+	if ct, key := x.fnValueContract(fr, c); ct != nil {
+		return x.applyContract(fr, st, ct, c.Signature(), nil, args, true, key, c)
 	}
 	x.uncontracted(st, "dynamic call of "+c.Value.Name())
-	return x.havocCall(st, resTypes, true)
+	return x.havocCall(fr, st, c, resTypes, true)
 }
 
 func tupleTypes(t *types.Tuple) []types.Type {
@@ -140,24 +311,38 @@ func (x *Exec) findClosure(fr *frame, v ssa.Value) *ssa.MakeClosure {
 }
 
 func (x *Exec) uncontracted(st *State, what string) {
-	x.diag("uncontracted call: %s (results and heaps havocked)", what)
+	x.diag("uncontracted call: %s (results unconstrained, every heap forgotten)", what)
+}
+
+// knownPure: library functions assumed to have no effect on any modelled heap (listed in the trusted base).
+var pureFuncs = map[string]bool{
+	"time.Now": true, "time.Since": true, "log.Printf": true, "log.Println": true, "fmt.Sprintf": true, "fmt.Sprint": true,
+	"path/filepath.Join": true, "path/filepath.Base": true, "path/filepath.Dir": true, "path.Join": true,
+	"strings.HasPrefix": true, "strings.HasSuffix": true, "strings.Join": true, "strings.Split": true, "strings.TrimPrefix": true,
+	"strconv.ParseUint": true, "strconv.Itoa": true, "strconv.Atoi": true, "os.IsNotExist": true, "errors.As": true,
+	"(time.Time).Sub": true, "(time.Duration).Seconds": true, "(time.Time).UnixNano": true, "(time.Time).Unix": true,
+	"math/rand.Int": true, "math/rand.Intn": true, "math/rand.Float32": true, "math/rand.Float64": true,
+	"(*sync.RWMutex).Lock": true, "(*sync.RWMutex).Unlock": true, "(*sync.RWMutex).RLock": true, "(*sync.RWMutex).RUnlock": true,
+	"(*sync.Mutex).Lock": true, "(*sync.Mutex).Unlock": true, "(*sync.WaitGroup).Add": true, "(*sync.WaitGroup).Done": true, "(*sync.WaitGroup).Wait": true,
+	"hash/crc32.MakeTable": true, "hash/crc64.MakeTable": true, "os.Getpagesize": true,
+	"(*time.Ticker).Stop": true, "time.NewTicker": true, "(*os.File).Name": true,
+	"math.Ceil": true, "math.Floor": true, "math.Log": true, "math.Max": true, "math.Min": true,
 }
 
 func (x *Exec) knownPure(fn *ssa.Function) bool {
-	switch fn.String() {
-	case "time.Now", "time.Since", "log.Printf", "fmt.Sprintf", "path/filepath.Join", "path/filepath.Base", "strings.HasPrefix", "strings.HasSuffix", "strings.Join":
-		return true
-	}
-	return false
+	return pureFuncs[fn.String()]
 }
 
-func (x *Exec) havocCall(st *State, resTypes []types.Type, heaps bool) []outcome {
+// havocCall: unknown callee. Results are unconstrained; if heaps is set every heap is forgotten.  Cells captured by
+// closures passed to the callee are forgotten too (the callee may run them).
+func (x *Exec) havocCall(fr *frame, st *State, c *ssa.CallCommon, resTypes []types.Type, heaps bool) []outcome {
 	if heaps {
-		for name := range st.heaps {
-			if strings.HasPrefix(name, "G$") && x.heapSort[name] == "" {
-				continue
-			}
-			st.heaps[name] = x.ctx.Fresh(name, x.heapSort[name])
+		x.havocAll(st)
+	}
+	if c != nil {
+		x.havocCaptured(fr, st, c)
+		if heaps {
+			x.havocAddrArgs(fr, st, c)
 		}
 	}
 	var rs []smt.T
@@ -167,10 +352,54 @@ func (x *Exec) havocCall(st *State, resTypes []types.Type, heaps bool) []outcome
 	return []outcome{{st: st, results: rs}}
 }
 
+// havocCaptured forgets the cells captured by closures handed to a callee.
+func (x *Exec) havocCaptured(fr *frame, st *State, c *ssa.CallCommon) {
+	for _, a := range c.Args {
+		if mc := x.findClosure(fr, a); mc != nil {
+			x.havocClosureCells(fr, st, mc, map[*ssa.Function]bool{})
+		}
+	}
+}
+
+func (x *Exec) havocClosureCells(fr *frame, st *State, mc *ssa.MakeClosure, seen map[*ssa.Function]bool) {
+	fn := mc.Fn.(*ssa.Function)
+	if seen[fn] {
+		return
+	}
+	seen[fn] = true
+	for _, bv := range mc.Bindings {
+		if a, ok := bv.(*ssa.Alloc); ok && x.isRegCell(a) {
+			x.havocCell(st, a)
+		} else if fv, ok := bv.(*ssa.FreeVar); ok {
+			if a := x.cellOfFreeVar(fr, fv); a != nil {
+				x.havocCell(st, a)
+			}
+		}
+	}
+}
+
+// havocAddrArgs forgets scalar locations whose address is passed to a callee with unknown effects.
+func (x *Exec) havocAddrArgs(fr *frame, st *State, c *ssa.CallCommon) {
+	for _, a := range c.Args {
+		switch a.(type) {
+		case *ssa.FieldAddr, *ssa.IndexAddr, *ssa.Alloc:
+			ad, _ := x.resolveAddr(fr, st, a)
+			switch ad.kind {
+			case "cell":
+				x.havocCell(st, ad.cell)
+			}
+		}
+	}
+}
+
 // inline executes an anonymous function body in a child frame.
 func (x *Exec) inline(fr *frame, st *State, fn *ssa.Function, mc *ssa.MakeClosure, args []smt.T, depth int) []outcome {
 	if len(fn.Blocks) == 0 {
-		return x.havocCall(st, tupleTypes(fn.Signature.Results()), true)
+		return x.havocCall(fr, st, nil, tupleTypes(fn.Signature.Results()), true)
+	}
+	if x.inlineDepth > 8 {
+		x.fatal("closure inlining too deep (recursion?) at %s", fn.Name())
+		return nil
 	}
 	// the closure's free variables resolve in the frame where the closure was made
 	parent := fr
@@ -189,273 +418,28 @@ func (x *Exec) inline(fr *frame, st *State, fn *ssa.Function, mc *ssa.MakeClosur
 		}
 	}
 	st.trace = append(st.trace, "enter "+fn.Name())
+	x.inlineDepth++
+	nd := len(st.defers)
 	outs := x.execBlock(child, st, fn.Blocks[0], nil, depth+1)
+	x.inlineDepth--
 	for i := range outs {
 		outs[i].st.trace = append(outs[i].st.trace, "leave "+fn.Name())
+		if len(outs[i].st.defers) > nd { // defers of the inlined function that were not run (no RunDefers reached): drop
+			outs[i].st.defers = outs[i].st.defers[:nd]
+		}
 	}
 	return outs
 }
 
-// ---------- builtins and library models
-
-func (x *Exec) builtin(fr *frame, st *State, b *ssa.Builtin, c *ssa.CallCommon, args []smt.T, resTypes []types.Type) []outcome {
-	one := func(t smt.T) []outcome { return []outcome{{st: st, results: []smt.T{t}}} }
-	switch b.Name() {
-	case "ssa:deferstack":
-		return one(smt.IntLit(0))
-	case "len":
-		switch t := c.Args[0].Type().Underlying().(type) {
-		case *types.Slice:
-			return one(sLen(args[0]))
-		case *types.Basic:
-			f := x.ctx.Fun("slen", []string{x.sortOf(t)}, smt.Int)
-			r := smt.App(smt.Int, f, args[0])
-			st.assume(smt.Le(smt.IntLit(0), r))
-			return one(r)
-		case *types.Array:
-			return one(smt.IntLit(t.Len()))
-		}
-	case "cap":
-		if _, ok := c.Args[0].Type().Underlying().(*types.Slice); ok {
-			return one(sCap(args[0]))
-		}
-	case "max", "min":
-		r := args[0]
-		for _, a := range args[1:] {
-			if b.Name() == "max" {
-				r = smt.Ite(smt.Lt(r, a), a, r)
-			} else {
-				r = smt.Ite(smt.Lt(a, r), a, r)
-			}
-		}
-		return one(r)
-	case "append":
-		// result: either in place (cap suffices) or a fresh array; contents: old prefix preserved, new elements appended
-		sl := c.Args[0].Type().Underlying().(*types.Slice)
-		hn, hs := x.elemHeap(sl.Elem())
-		h := x.heap(st, hn, hs)
-		s, t := args[0], args[1]
-		newLen := smt.Add(sLen(s), sLen(t))
-		r := x.ctx.Fresh("append", SliceSort)
-		h2 := x.ctx.Fresh(hn, hs)
-		st.heaps[hn] = h2
-		i := x.ctx.Fresh("i", smt.Int)
-		_ = i
-		iv := "i!q"
-		q := func(body string) smt.T { return smt.Raw("(forall (("+iv+" Int)) "+body+")", smt.Bool) }
-		ri := smt.Raw(iv, smt.Int)
-		inPlace := smt.Le(newLen, sCap(s))
-		relem := smt.Select(smt.Select(h2, sArr(r)), smt.Add(sOff(r), ri))
-		selem := smt.Select(smt.Select(h, sArr(s)), smt.Add(sOff(s), ri))
-		telem := smt.Select(smt.Select(h, sArr(t)), smt.Add(sOff(t), smt.Sub(ri, sLen(s))))
-		st.assume(
-			smt.Eq(sLen(r), newLen), smt.Le(newLen, sCap(r)), smt.Le(smt.IntLit(0), sOff(r)), smt.Lt(smt.IntLit(0), sArr(r)),
-			smt.Implies(inPlace, smt.And(smt.Eq(sArr(r), sArr(s)), smt.Eq(sOff(r), sOff(s)), smt.Eq(sCap(r), sCap(s)))),
-			q(smt.Implies(smt.And(smt.Le(smt.IntLit(0), ri), smt.Lt(ri, sLen(s))), smt.Eq(relem, selem)).S),
-			q(smt.Implies(smt.And(smt.Le(sLen(s), ri), smt.Lt(ri, newLen)), smt.Eq(relem, telem)).S),
-			// frame: other arrays unchanged; in-place append leaves the cells outside [len, newLen) of the same array unchanged
-			smt.Raw("(forall ((a!q Int)) (=> (not (= a!q "+sArr(r).S+")) (= (select "+h2.S+" a!q) (select "+h.S+" a!q))))", smt.Bool),
-			smt.Implies(inPlace, q(smt.Implies(smt.Or(smt.Lt(ri, smt.Add(sOff(s), sLen(s))), smt.Le(smt.Add(sOff(s), newLen), ri)),
-				smt.Eq(smt.Select(smt.Select(h2, sArr(s)), ri), smt.Select(smt.Select(h, sArr(s)), ri))).S)),
-		)
-		if !x.opts.Strict {
-			st.assume(smt.Implies(smt.Not(inPlace), x.freshnessOf(st, sArr(r))))
-		}
-		return one(r)
-	case "copy":
-		sl, ok := c.Args[0].Type().Underlying().(*types.Slice)
-		if !ok {
-			break
-		}
-		hn, hs := x.elemHeap(sl.Elem())
-		h := x.heap(st, hn, hs)
-		d, s := args[0], args[1]
-		n := smt.Ite(smt.Lt(sLen(d), sLen(s)), sLen(d), sLen(s))
-		if _, isStr := c.Args[1].Type().Underlying().(*types.Basic); isStr {
-			f := x.ctx.Fun("slen", []string{x.sortOf(c.Args[1].Type())}, smt.Int)
-			ls := smt.App(smt.Int, f, s)
-			n = smt.Ite(smt.Lt(sLen(d), ls), sLen(d), ls)
-			h2 := x.ctx.Fresh(hn, hs)
-			st.heaps[hn] = h2
-			st.assume(smt.Raw("(forall ((a!q Int)) (=> (not (= a!q "+sArr(d).S+")) (= (select "+h2.S+" a!q) (select "+h.S+" a!q))))", smt.Bool))
-			return one(n)
-		}
-		h2 := x.ctx.Fresh(hn, hs)
-		st.heaps[hn] = h2
-		ri := smt.Raw("i!q", smt.Int)
-		inRange := smt.And(smt.Le(sOff(d), ri), smt.Lt(ri, smt.Add(sOff(d), n)))
-		src := smt.Select(smt.Select(h, sArr(s)), smt.Add(sOff(s), smt.Sub(ri, sOff(d))))
-		st.assume(
-			smt.Raw("(forall ((a!q Int)) (=> (not (= a!q "+sArr(d).S+")) (= (select "+h2.S+" a!q) (select "+h.S+" a!q))))", smt.Bool),
-			smt.Raw("(forall ((i!q Int)) (= (select (select "+h2.S+" "+sArr(d).S+") i!q) "+smt.Ite(inRange, src, smt.Select(smt.Select(h, sArr(d)), ri)).S+"))", smt.Bool),
-		)
-		return one(n)
-	case "close", "delete", "print", "println":
-		return []outcome{{st: st}}
-	case "panic":
-		return []outcome{{st: st, panicked: true}}
-	}
-	x.diag("builtin %s not modelled", b.Name())
-	return x.havocCall(st, resTypes, false)
-}
-
-func (x *Exec) freshnessOf(st *State, r smt.T) smt.T {
-	var fs []smt.T
-	for _, o := range st.refs {
-		fs = append(fs, smt.Not(smt.Eq(r, o)))
-	}
-	for _, b := range x.params {
-		switch b.typ.Underlying().(type) {
-		case *types.Pointer:
-			fs = append(fs, smt.Not(smt.Eq(r, b.t)))
-		case *types.Slice:
-			fs = append(fs, smt.Not(smt.Eq(r, sArr(b.t))))
-		}
-	}
-	return smt.And(fs...)
-}
-
-func (x *Exec) errIs(a, b smt.T) smt.T {
-	f := x.ctx.Fun("errIs", []string{smt.Int, smt.Int}, smt.Bool)
-	return smt.App(smt.Bool, f, a, b)
-}
-
-// model implements the built-in models of library functions. ok=false if fn is not modelled.
-func (x *Exec) model(fr *frame, st *State, fn *ssa.Function, c *ssa.CallCommon, args []smt.T, resTypes []types.Type) ([]outcome, bool) {
-	one := func(t ...smt.T) ([]outcome, bool) { return []outcome{{st: st, results: t}}, true }
-	switch fn.String() {
-	case "errors.Is":
-		return one(x.errIs(args[0], args[1]))
-	case "errors.New":
-		e := x.freshRef(st, "errnew")
-		st.assume(x.leaf(e))
-		return one(e)
-	case "fmt.Errorf":
-		e := x.freshRef(st, "errorf")
-		// which variadic arguments are wrapped with %w?  The format is a constant; args[1] is the []any slice.
-		wrapped := x.wrappedArgs(fr, st, c)
-		tq := smt.Raw("t!q", smt.Int)
-		disj := []smt.T{smt.Eq(e, tq)}
-		for _, w := range wrapped {
-			disj = append(disj, x.errIs(w, tq))
-		}
-		st.assume(smt.Raw("(forall ((t!q Int)) (! (= "+x.errIs(e, tq).S+" "+smt.Or(disj...).S+") :pattern ("+x.errIs(e, tq).S+")))", smt.Bool))
-		st.assume(smt.Not(x.leaf(e)))
-		return one(e)
-	case "errors.Join":
-		// args[0] is the variadic slice; we need the element values: recover them from the varargs array stores
-		elems := x.varargElems(fr, st, c, 0)
-		e := x.ctx.Fresh("errjoin", smt.Int)
-		st.assume(smt.Le(smt.IntLit(0), e))
-		allNil := smt.True
-		tq := smt.Raw("t!q", smt.Int)
-		disj := []smt.T{smt.Eq(e, tq)}
-		for _, el := range elems {
-			allNil = smt.And(allNil, smt.Eq(el, smt.IntLit(0)))
-			disj = append(disj, x.errIs(el, tq))
-		}
-		st.assume(smt.Ite(allNil, smt.Eq(e, smt.IntLit(0)),
-			smt.And(smt.Not(smt.Eq(e, smt.IntLit(0))), smt.Not(x.leaf(e)),
-				smt.Raw("(forall ((t!q Int)) (! (= "+x.errIs(e, tq).S+" "+smt.Or(disj...).S+") :pattern ("+x.errIs(e, tq).S+")))", smt.Bool))))
-		for _, o := range st.refs {
-			st.assume(smt.Implies(smt.Not(allNil), smt.Not(smt.Eq(e, o))))
-		}
-		return one(e)
-	case "bytes.Compare":
-		x.declSlice()
-		f := x.ctx.Fun("bcmp$", []string{SliceSort, SliceSort, "(Array Int (Array Int Int))"}, smt.Int)
-		hn, hs := x.elemHeap(types.Typ[types.Uint8])
-		r := smt.App(smt.Int, f, args[0], args[1], x.heap(st, hn, hs))
-		return one(r)
-	case "log.Printf", "time.Now", "time.Since":
-		return x.havocCall(st, resTypes, false), true
-	case "log.Panicf":
-		return []outcome{{st: st, panicked: true}}, true
-	}
-	return nil, false
-}
-
-func (x *Exec) leaf(e smt.T) smt.T {
-	f := x.ctx.Fun("errLeaf", []string{smt.Int}, smt.Bool)
-	return smt.App(smt.Bool, f, e)
-}
-
-// varargElems recovers the element terms of a variadic argument built as `new [n]T (varargs)` + stores + slice.
-func (x *Exec) varargElems(fr *frame, st *State, c *ssa.CallCommon, argIdx int) []smt.T {
-	sl, ok := c.Args[argIdx].(*ssa.Slice)
-	if !ok {
-		return nil
-	}
-	al, ok := sl.X.(*ssa.Alloc)
-	if !ok {
-		return nil
-	}
-	arr, ok := deref(al.Type()).Underlying().(*types.Array)
-	if !ok {
-		return nil
-	}
-	elems := make([]smt.T, arr.Len())
-	hn, hs := x.elemHeap(arr.Elem())
-	h := x.heap(st, hn, hs)
-	// the array ref is the value bound to the Alloc in some frame; search referrers for its register via stores
-	var ref smt.T
-	found := false
-	for f := fr; f != nil; f = f.parent {
-		if t, ok := f.regs[al]; ok {
-			ref, found = t, true
-			break
-		}
-	}
-	if !found {
-		return nil
-	}
-	for i := range elems {
-		elems[i] = smt.Select(smt.Select(h, ref), smt.IntLit(int64(i)))
-	}
-	return elems
-}
-
-// wrappedArgs returns the terms of the variadic arguments of fmt.Errorf that are consumed by a %w verb.
-func (x *Exec) wrappedArgs(fr *frame, st *State, c *ssa.CallCommon) []smt.T {
-	format, ok := c.Args[0].(*ssa.Const)
-	if !ok || format.Value == nil || len(c.Args) < 2 {
-		return nil
-	}
-	f := strings.Trim(format.Value.ExactString(), "\"")
-	var verbs []byte
-	for i := 0; i+1 < len(f); i++ {
-		if f[i] == '%' {
-			j := i + 1
-			for j < len(f) && strings.ContainsRune("+-# 0123456789.*[]", rune(f[j])) {
-				j++
-			}
-			if j < len(f) {
-				if f[j] != '%' {
-					verbs = append(verbs, f[j])
-				}
-				i = j
-			}
-		}
-	}
-	elems := x.varargElems(fr, st, c, 1)
-	var ws []smt.T
-	for i, v := range verbs {
-		if v == 'w' && i < len(elems) {
-			ws = append(ws, elems[i])
-		}
-	}
-	return ws
-}
-
 // ---------- contract application at call sites
 
-func (x *Exec) applyContract(st *State, ct *gcl.Contract, sig *types.Signature, params []*ssa.Parameter, args []smt.T, iface bool, what string) []outcome {
+func (x *Exec) calleeEnv(ct *gcl.Contract, sig *types.Signature, params []*ssa.Parameter, args []smt.T, iface bool) map[string]binding {
 	env := map[string]binding{}
 	idx := 0
-	if iface {
+	if iface && ct.Kind == "iface" && !strings.Contains(ct.Name, "#") && isMethodContract(ct) {
 		env["this"] = binding{args[0], types.Typ[types.UnsafePointer]}
 		idx = 1
-	} else if sig.Recv() != nil && len(args) > 0 {
+	} else if !iface && sig.Recv() != nil && len(args) > 0 {
 		name := sig.Recv().Name()
 		if len(params) > 0 {
 			name = params[0].Name()
@@ -471,26 +455,47 @@ func (x *Exec) applyContract(st *State, ct *gcl.Contract, sig *types.Signature, 
 			name = params[idx+i].Name()
 		}
 		if idx+i < len(args) {
-			env[name] = binding{args[idx+i], p.Type()}
-			env[fmt.Sprintf("a%d", i)] = env[name]
+			if name != "" && name != "_" {
+				env[name] = binding{args[idx+i], p.Type()}
+			}
+			env[fmt.Sprintf("a%d", i)] = binding{args[idx+i], p.Type()}
 		}
+	}
+	return env
+}
+
+// isMethodContract: iface contracts for interface methods take a receiver; fnparam / fnfield contracts do not.
+func isMethodContract(ct *gcl.Contract) bool { return !ct.FuncValue }
+
+func (x *Exec) applyContract(fr *frame, st *State, ct *gcl.Contract, sig *types.Signature, params []*ssa.Parameter, args []smt.T, iface bool, what string, c *ssa.CallCommon) []outcome {
+	env := x.calleeEnv(ct, sig, params, args, iface)
+	if ct.Trusted {
+		x.noteTrusted("assumed contract: " + shortName(what) + " (" + shortFile(ct.File) + ")")
 	}
 	pre := st.clone()
 	for i, r := range ct.Requires {
-		t, err := x.evalExpr(r.E, &evalCtx{st: st, old: pre, env: env})
+		t, err := x.evalExpr(r.E, &evalCtx{st: st, old: pre, env: env, pkg: ct.Pkg})
 		if err != nil {
-			x.diag("requires of %s: %v", what, err)
+			x.fatal("requires of %s: %v", what, err)
 			continue
 		}
-		x.emit(&Obligation{Kind: "pre", Name: fmt.Sprintf("%s.requires%d|%s", shortName(what), i, pathSig(st.trace)), Facts: st.facts, Goal: t, Source: r.Src})
+		label := r.Label
+		if label == "" {
+			label = fmt.Sprintf("requires%d", i)
+		}
+		x.emit(&Obligation{Kind: "pre", Label: shortName(what) + "." + label, Facts: st.facts, Goal: t, Source: r.Src}, st)
 		st.assume(t)
 	}
 	// havoc the frame
-	for _, m := range ct.Modifies {
-		x.havocLoc(st, m, env)
-	}
 	if !ct.HasMod {
-		x.diag("contract of %s has no modifies clause: treated as modifies nothing", what)
+		x.diag("contract of %s has no modifies clause: every heap forgotten at the call", what)
+		x.havocAll(st)
+	}
+	for _, m := range ct.Modifies {
+		x.havocLoc(st, m, env, ct.Pkg)
+	}
+	if c != nil && !ct.Pure {
+		x.havocCaptured(fr, st, c)
 	}
 	var rs []smt.T
 	res := sig.Results()
@@ -499,16 +504,35 @@ func (x *Exec) applyContract(st *State, ct *gcl.Contract, sig *types.Signature, 
 		rs = append(rs, v)
 		env[fmt.Sprintf("r%d", i)] = binding{v, res.At(i).Type()}
 		if n := res.At(i).Name(); n != "" && n != "_" {
-			env[n] = binding{v, res.At(i).Type()}
+			if _, clash := env[n]; !clash {
+				env[n] = binding{v, res.At(i).Type()}
+			}
 		}
 	}
+	for _, name := range ct.Fresh {
+		b, ok := env[name]
+		if !ok {
+			x.fatal("fresh %s of %s: no such result", name, what)
+			continue
+		}
+		r := b.t
+		if r.Sort == SliceSort {
+			r = sArr(r)
+		}
+		nonNil := smt.Not(smt.Eq(r, smt.IntLit(0)))
+		st.assume(smt.Implies(nonNil, smt.And(smt.Not(x.notFresh(r)), x.freshnessOf(st, r))))
+		st.refs = append(st.refs, r)
+	}
 	for _, e := range ct.Ensures {
-		t, err := x.evalExpr(e.E, &evalCtx{st: st, old: pre, env: env})
+		t, err := x.evalExpr(e.E, &evalCtx{st: st, old: pre, env: env, pkg: ct.Pkg})
 		if err != nil {
-			x.diag("ensures of %s: %v", what, err)
+			x.fatal("ensures of %s: %v", what, err)
 			continue
 		}
 		st.assume(t)
+	}
+	if ct.Panics == "always" {
+		return []outcome{{st: st, panicked: true}}
 	}
 	return []outcome{{st: st, results: rs}}
 }
@@ -520,25 +544,54 @@ func shortName(s string) string {
 	return s
 }
 
-// havocLoc havocs one location designator of a modifies clause: ghost(x), x.f, x[*].
-func (x *Exec) havocLoc(st *State, loc string, env map[string]binding) {
+// ghostHeap returns name and sort of the heap of a ghost function: nested arrays indexed by its parameters.
+func (x *Exec) ghostHeap(g *gcl.Spec) (string, string) {
+	sort := x.specSort(g.Ret)
+	for i := len(g.Params) - 1; i >= 0; i-- {
+		sort = smt.ArraySort(x.specSort(g.Params[i][1]), sort)
+	}
+	if len(g.Params) == 0 {
+		sort = smt.ArraySort(smt.Int, sort)
+	}
+	return x.regHeap("GH$"+g.Name, sort)
+}
+
+// havocLoc havocs one location designator of a modifies clause: g(obj[, k...]), x.f, x[*], x.*, *.
+func (x *Exec) havocLoc(st *State, loc string, env map[string]binding, pkg string) {
 	loc = strings.TrimSpace(loc)
-	if i := strings.Index(loc, "("); i > 0 && strings.HasSuffix(loc, ")") { // ghost heap g(obj)
-		g := loc[:i]
-		if sort, ok := x.P.Ghosts[g]; ok {
-			obj, err := x.evalExpr(mustParse(loc[i+1:len(loc)-1]), &evalCtx{st: st, old: st, env: env})
-			if err == nil {
-				hn := "GH$" + g
-				h := x.heap(st, hn, smt.ArraySort(smt.Int, sort))
-				st.heaps[hn] = smt.Store(h, obj, x.ctx.Fresh("gh$"+g, sort))
+	ectx := &evalCtx{st: st, old: st, env: env, pkg: pkg}
+	if loc == "*" {
+		x.havocAll(st)
+		return
+	}
+	if i := strings.Index(loc, "("); i > 0 && strings.HasSuffix(loc, ")") { // ghost heap g(obj, ...)
+		gname := loc[:i]
+		if g, ok := x.P.Ghosts[gname]; ok {
+			hn, hs := x.ghostHeap(g)
+			inner := strings.TrimSpace(loc[i+1 : len(loc)-1])
+			if inner == "*" || inner == "" {
+				x.havocHeap(st, hn)
 				return
 			}
+			var idx []smt.T
+			for _, a := range splitTopLevel(inner) {
+				t, err := x.evalExpr(mustParse(a), ectx)
+				if err != nil {
+					x.fatal("modifies %q: %v", loc, err)
+					x.havocAll(st)
+					return
+				}
+				idx = append(idx, t)
+			}
+			h := x.heap(st, hn, hs)
+			st.heaps[hn] = x.storeNested(h, idx, hs)
+			return
 		}
 	}
 	if strings.HasSuffix(loc, "[*]") {
-		e, err := x.evalTyped(mustParse(strings.TrimSuffix(loc, "[*]")), &evalCtx{st: st, old: st, env: env})
-		if err == nil {
-			if sl, ok := e.typ.Underlying().(*types.Slice); ok {
+		e, err := x.evalTyped(mustParse(strings.TrimSuffix(loc, "[*]")), ectx)
+		if err == nil && e.typ != nil {
+			if sl, ok := e.typ.Underlying().(*types.Slice); ok && !isAggregate(sl.Elem()) {
 				hn, hs := x.elemHeap(sl.Elem())
 				h := x.heap(st, hn, hs)
 				st.heaps[hn] = smt.Store(h, sArr(e.t), x.ctx.Fresh("arr", smt.ArraySort(smt.Int, x.sortOf(sl.Elem()))))
@@ -546,15 +599,32 @@ func (x *Exec) havocLoc(st *State, loc string, env map[string]binding) {
 			}
 		}
 	}
+	if strings.HasSuffix(loc, ".*") {
+		e, err := x.evalTyped(mustParse(strings.TrimSuffix(loc, ".*")), ectx)
+		if err == nil && e.typ != nil {
+			if stt, ok := deref(e.typ).Underlying().(*types.Struct); ok {
+				x.havocStruct(st, deref(e.typ), stt, e.t)
+				return
+			}
+		}
+	}
 	if i := strings.LastIndex(loc, "."); i > 0 {
-		e, err := x.evalTyped(mustParse(loc[:i]), &evalCtx{st: st, old: st, env: env})
-		if err == nil {
+		e, err := x.evalTyped(mustParse(loc[:i]), ectx)
+		if err == nil && e.typ != nil {
 			if stt, ok := deref(e.typ).Underlying().(*types.Struct); ok {
 				for k := 0; k < stt.NumFields(); k++ {
 					if stt.Field(k).Name() == loc[i+1:] {
+						ft := stt.Field(k).Type()
+						if sst, ok := ft.Underlying().(*types.Struct); ok {
+							x.havocStruct(st, ft, sst, x.interiorRef(deref(e.typ), k, e.t))
+							return
+						}
+						if isAggregate(ft) {
+							break
+						}
 						hn, hs := x.fieldHeap(deref(e.typ), k)
 						h := x.heap(st, hn, hs)
-						v := x.freshOf(st, "mod$"+loc[i+1:], stt.Field(k).Type())
+						v := x.freshOf(st, "mod$"+loc[i+1:], ft)
 						st.heaps[hn] = smt.Store(h, e.t, v)
 						return
 					}
@@ -562,10 +632,152 @@ func (x *Exec) havocLoc(st *State, loc string, env map[string]binding) {
 			}
 		}
 	}
-	x.diag("modifies %q: cannot resolve, all heaps havocked", loc)
-	for name := range st.heaps {
-		st.heaps[name] = x.ctx.Fresh(name, x.heapSort[name])
+	x.diag("modifies %q: cannot resolve, every heap forgotten", loc)
+	x.havocAll(st)
+}
+
+func (x *Exec) havocStruct(st *State, t types.Type, stt *types.Struct, ref smt.T) {
+	for k := 0; k < stt.NumFields(); k++ {
+		ft := stt.Field(k).Type()
+		if sst, ok := ft.Underlying().(*types.Struct); ok {
+			x.havocStruct(st, ft, sst, x.interiorRef(t, k, ref))
+			continue
+		}
+		if arr, ok := ft.Underlying().(*types.Array); ok {
+			if !isAggregate(arr.Elem()) {
+				hn, hs := x.elemHeap(arr.Elem())
+				h := x.heap(st, hn, hs)
+				st.heaps[hn] = smt.Store(h, x.interiorRef(t, k, ref), x.ctx.Fresh("arr", smt.ArraySort(smt.Int, x.sortOf(arr.Elem()))))
+			}
+			continue
+		}
+		hn, hs := x.fieldHeap(t, k)
+		h := x.heap(st, hn, hs)
+		st.heaps[hn] = smt.Store(h, ref, x.freshOf(st, "mod$"+stt.Field(k).Name(), ft))
 	}
+}
+
+// storeNested replaces the sub-array / cell of h selected by idx with a fresh value.
+func (x *Exec) storeNested(h smt.T, idx []smt.T, sort string) smt.T {
+	if len(idx) == 0 {
+		return x.ctx.Fresh("gh", sort)
+	}
+	inner := elemSortOf(sort)
+	return smt.Store(h, idx[0], x.storeNested(smt.Select(h, idx[0]), idx[1:], inner))
+}
+
+func elemSortOf(arr string) string {
+	t := smt.T{S: "a", Sort: arr}
+	return smt.Select(t, smt.IntLit(0)).Sort
+}
+
+// heapsOfModifies lists the heap names a contract's modifies clause can touch (nil = unknown / everything).
+func (x *Exec) heapsOfModifies(ct *gcl.Contract, sig *types.Signature, iface bool) []string {
+	hs := []string{}
+	for _, loc := range ct.Modifies {
+		loc = strings.TrimSpace(loc)
+		if loc == "*" {
+			return nil
+		}
+		if i := strings.Index(loc, "("); i > 0 && strings.HasSuffix(loc, ")") {
+			if g, ok := x.P.Ghosts[loc[:i]]; ok {
+				hn, _ := x.ghostHeap(g)
+				hs = append(hs, hn)
+				continue
+			}
+		}
+		// x.f / x[*] / x.*: resolve the static type of x from the signature
+		names := x.heapNamesOfDesignator(loc, ct, sig, iface)
+		if names == nil {
+			return nil
+		}
+		hs = append(hs, names...)
+	}
+	return hs
+}
+
+func (x *Exec) heapNamesOfDesignator(loc string, ct *gcl.Contract, sig *types.Signature, iface bool) []string {
+	// evaluate the designator's base expression in a dummy environment just to learn its type
+	env := map[string]binding{}
+	d := smt.IntLit(0)
+	if sig.Recv() != nil && !iface {
+		env[sig.Recv().Name()] = binding{d, sig.Recv().Type()}
+		env["this"] = binding{d, sig.Recv().Type()}
+	}
+	for i := 0; i < sig.Params().Len(); i++ {
+		p := sig.Params().At(i)
+		v := smt.T{S: "0", Sort: x.sortOf(p.Type())}
+		if _, ok := p.Type().Underlying().(*types.Slice); ok {
+			v = nilSlice
+		}
+		env[p.Name()] = binding{v, p.Type()}
+		env[fmt.Sprintf("a%d", i)] = binding{v, p.Type()}
+	}
+	if fn := x.P.Funcs[ct.Pkg+"."+ct.Name]; fn != nil {
+		for i, p := range fn.Params {
+			v := smt.T{S: "0", Sort: x.sortOf(p.Type())}
+			if _, ok := p.Type().Underlying().(*types.Slice); ok {
+				v = nilSlice
+			}
+			env[p.Name()] = binding{v, p.Type()}
+			if i == 0 && fn.Signature.Recv() != nil {
+				env["this"] = env[p.Name()]
+			}
+		}
+	}
+	tmp := &State{cells: map[*ssa.Alloc]smt.T{}, heaps: map[string]smt.T{}, gen: -1}
+	ectx := &evalCtx{st: tmp, old: tmp, env: env, pkg: ct.Pkg}
+	switch {
+	case strings.HasSuffix(loc, "[*]"):
+		e, err := x.evalTyped(mustParse(strings.TrimSuffix(loc, "[*]")), ectx)
+		if err == nil && e.typ != nil {
+			if sl, ok := e.typ.Underlying().(*types.Slice); ok && !isAggregate(sl.Elem()) {
+				hn, _ := x.elemHeap(sl.Elem())
+				return []string{hn}
+			}
+		}
+	case strings.HasSuffix(loc, ".*"):
+		e, err := x.evalTyped(mustParse(strings.TrimSuffix(loc, ".*")), ectx)
+		if err == nil && e.typ != nil {
+			if _, ok := deref(e.typ).Underlying().(*types.Struct); ok {
+				return x.heapsOfType(deref(e.typ), func() string { return "" })
+			}
+		}
+	default:
+		if i := strings.LastIndex(loc, "."); i > 0 {
+			e, err := x.evalTyped(mustParse(loc[:i]), ectx)
+			if err == nil && e.typ != nil {
+				if stt, ok := deref(e.typ).Underlying().(*types.Struct); ok {
+					for k := 0; k < stt.NumFields(); k++ {
+						if stt.Field(k).Name() == loc[i+1:] {
+							k := k
+							return x.heapsOfType(stt.Field(k).Type(), func() string { h, _ := x.fieldHeap(deref(e.typ), k); return h })
+						}
+					}
+				}
+			}
+		}
+	}
+	return nil
+}
+
+func splitTopLevel(s string) []string {
+	var out []string
+	depth, last := 0, 0
+	for i, c := range s {
+		switch c {
+		case '(', '[':
+			depth++
+		case ')', ']':
+			depth--
+		case ',':
+			if depth == 0 {
+				out = append(out, s[last:i])
+				last = i + 1
+			}
+		}
+	}
+	return append(out, s[last:])
 }
 
 func mustParse(s string) gcl.Expr {
